@@ -1527,13 +1527,18 @@ impl<'arena> PrettyFormatter<'arena> {
         let source = self.source?;
         let (outer_start, _) = self.spans[&EntityId::Term(term)].get_cursor1();
         let (inner_start, inner_end) = self.spans[&EntityId::Term(inner)].get_cursor1();
-        // The annotation is closed by the first `]`: a format directive contains
-        // none, while the gap before the payload may (inside a comment).
-        let annotation_end = source
-            .get(outer_start..inner_start)?
-            .find(']')?
-            .checked_add(outer_start)?
-            .checked_add(1)?;
+        // The annotation is closed by its first `]` token: a format directive
+        // contains none, while a comment before, inside or after the brackets may
+        // contain the character.
+        let annotation = source.get(outer_start..inner_start)?;
+        let annotation_end = crate::textual::LexicalTokens::new(annotation)
+            .find(|token| {
+                token.kind == crate::textual::LexicalTokenKind::Punctuation
+                    && annotation.get(token.range.clone()) == Some("]")
+            })?
+            .range
+            .end
+            .checked_add(outer_start)?;
         let boundary = source.get(annotation_end..inner_start)?;
         let payload = source.get(inner_start..inner_end)?;
         Some(
